@@ -65,6 +65,11 @@ def cases(tier, seed):
                 out.append(dict(layer=layer, mode='cmdt', size=size, w=1, bg_timer=0.9, fault=fault, seed=seed * 7919 + len(out)))
                 if fault != 'sil_resp':
                     out.append(dict(layer=layer, mode='bam', size=size, w=1, bg_timer=0.6, fault=fault, seed=seed * 7919 + len(out)))
+                # zero latency on J1939-21: every reply is handled inside the send call that caused it (frames arrive while the job thread is
+                # in the middle of its pass)
+                if layer == 'j1939-21':
+                    out.append(dict(layer=layer, mode='cmdt', size=size, w=2, zero=1.0, fault=fault, seed=seed * 7919 + len(out)))
+                    out.append(dict(layer=layer, mode='cmdt', size=size, w=255, zero=0.5, fault=fault, seed=seed * 7919 + len(out)))
                 # an impatient application re-submitting on the same pair as soon as the stack lets it (the receiver may still hold the faulted session)
                 for e0 in ((0.03, 0.4) if tier == 'quick' else (0.03, 0.2, 0.4, 0.8)):
                     if fault != 'sil_resp':
@@ -77,7 +82,7 @@ def one_run(case, k, seed):
     """one transfer with fault k (k=0: fault-free); returns observation dict"""
     layer, mode, size, w, fault = case['layer'], case['mode'], case['size'], case['w'], case['fault']
     fd = layer == 'j1939-22'
-    W = World(seed + 7717 * case.get('lat_seed', 0), layer, (0.0002, 0.003))
+    W = World(seed + 7717 * case.get('lat_seed', 0), layer, (0.0002, 0.003), case.get('zero', 0.0))
     sim = W.sim
     kwa = dict(max_cmdt_packets=w)
     kwb = dict(max_cmdt_packets=case.get('wb', w))
@@ -185,7 +190,7 @@ def run_case(case):
         r['W'].close()
     sample = dict(case=case, fault_points=F, baseline_frames=[f.brief() for f in base['frames'][:min(base['n1'], 10)]],
                   abort_reasons_seen=sorted(reasons))
-    return dict(violations=list(viol), inconclusive=None if F > 0 else 'baseline run produced no frames', sig=repr((layer, mode, size, w, case.get('wb'), case.get('dt_interval'), case.get('bam_interval'), case.get('lat_seed'), case.get('bg_timer'), case.get('early'), fault)),
+    return dict(violations=list(viol), inconclusive=None if F > 0 else 'baseline run produced no frames', sig=repr((layer, mode, size, w, case.get('wb'), case.get('dt_interval'), case.get('bam_interval'), case.get('lat_seed'), case.get('bg_timer'), case.get('early'), case.get('zero'), fault)),
                 nontrivial=obs['effective_faults'] > 0, obs=obs, sample=sample)
 
 
@@ -202,6 +207,10 @@ def judge(case, r, k, viol, obs, fault_free=False, reasons=None):
     tag = dict(layer=layer, mode=mode, fault='none' if fault_free else fault)
     where = '%s %s size=%d w=%d %s k=%s' % (layer, mode, size, w, 'fault-free' if fault_free else fault, k)
     W = r['W']
+    for s in W.stacks:
+        for (t, tmo, d, what_) in s.sleep_problems[:1]:
+            viol.add('sleeps_past_deadline', '%s: %s: at %.4f the job thread went to sleep on an empty wake-up queue for %s s although %s is due at %.4f'
+                     % (where, s.name, t, tmo, what_, d), what=what_.split('[')[0].split(' (')[0], **tag)
     for p in r['live2']:
         viol.add(p['kind'], '%s: %s %s at %s' % (where, p['thread'], p['exc'], p['where']), where=p['where'], exc=p['exc'].split('(')[0], **tag)
     # 1. payload exact or nothing at the receiver
